@@ -218,6 +218,8 @@ def main(argv=None):
 
     # output
     rdir = os.path.join(VERIF, "evidence", "replay", pid)
+    if os.environ.get("VERIF_REPLAY_DIR"):
+        rdir = os.path.join(os.environ["VERIF_REPLAY_DIR"], pid)
     lines = []
     for k, vs in sorted(listed.items()):
         lines.append("KNOWN-FINDING: property=%s %s: %s (observed %d times this run)" % (pid, k, open_keys[k]["description"], len(vs)))
@@ -258,8 +260,11 @@ def main(argv=None):
         ev = {"property_id": pid, "tier": a.tier, "seed": a.seed, "level": "exploration", "coverage": cov,
               "assumptions": getattr(mod, "ASSUMPTIONS", []), "wall_s": round(wall, 2),
               "violations": sum(len(v) for v in unlisted.values())}
-        os.makedirs(os.path.join(VERIF, "evidence"), exist_ok=True)
-        json.dump(ev, open(os.path.join(VERIF, "evidence", "%s.json" % pid), "w"), indent=1, default=repr, sort_keys=False)
+        # evidence for /repo itself goes to evidence/<id>.json; runs against another tree (VERIF_REPO, used to try
+        # seeded changes in scratch worktrees) must not overwrite it
+        edir = os.path.join(VERIF, "evidence") if repo_path() == "/repo" else os.path.join(VERIF, "evidence", "other-tree")
+        os.makedirs(edir, exist_ok=True)
+        json.dump(ev, open(os.path.join(edir, "%s.json" % pid), "w"), indent=1, default=repr, sort_keys=False)
 
     for l in lines:
         print(l)
